@@ -173,7 +173,10 @@ func (p *Program) buildNRAQuery(o *Obligation) string {
 	}
 	var asserts []*Term
 	asserts = append(asserts, flattenAnd(o.PC)...)
-	asserts = append(asserts, Not(o.Goal))
+	// the goal's leading universal quantifiers become fresh constants (as in the full query), so that a universally
+	// quantified algebraic identity is decided on its ground instance; quantified hypotheses are dropped below
+	neg := negSkolem(o.Goal)
+	asserts = append(asserts, neg...)
 	asserts = presimplify(asserts)
 	cache := map[*Term]*Term{}
 	for i, a := range asserts {
